@@ -22,6 +22,11 @@ without a fault.   PARTIAL: a data race is a fact about one execution under the 
 namespace UpfVerif.C17
 open UpfVerif.Gen.Conc UpfVerif.ConcRules
 
+/-- the ownership rule is the WHOLE synchronisation story: in /repo's current source no mutex, read-write lock, atomic,
+    `sync.Pool`, `sync.Once` or `sync.Cond` is used anywhere in the module (only `sync.WaitGroup`, for shutdown) — so a
+    structure reachable from two goroutines is protected by ownership and channel hand-over, or not at all -/
+theorem no_other_synchronisation : otherSync = [] := by decide
+
 /-! ### the principle -/
 
 structure Ev where
